@@ -51,7 +51,7 @@ def _worker(args):
     # native pre-check: a clause that already fails on a sampled native run is a violation with its input; the expensive solver
     # stages are then skipped for that clause (a broken tree is reported in seconds instead of after every solver budget)
     pre = None
-    if not cdef.no_crosscheck:
+    if not cdef.no_crosscheck and not cdef.native_only:
         try:
             pre = C.crosscheck(cdef, min(n_cross, 25), seed)
         except Exception:
@@ -63,7 +63,7 @@ def _worker(args):
         return {'contract': cdef.ident, 'name': cname, 'crash': traceback.format_exc(), 'obligations': {},
                 'undecided': [], 'paths': 0, 'vcs': 0, 'solver_s': 0.0, 'targets': cdef.targets,
                 'source_hashes': {}, 'samples': [], 'bounded': cdef.bounded, 'wall_s': 0.0}
-    if not cdef.no_crosscheck and 'crash' not in res:
+    if not cdef.no_crosscheck and not cdef.native_only and 'crash' not in res:
         try:
             res['crosscheck'] = pre if (pre is not None and (n_cross <= 25 or pre['failures'])) else C.crosscheck(cdef, n_cross, seed)
         except Exception:
@@ -145,7 +145,14 @@ def summarize(prop, tier, seed, meta, results, wall, quiet=False, census=True):
                                  'obligations': sorted(o['name'] for o in r['obligations'].values() if o['kind'] != 'canary')})
         if not r['obligations'] and not r['undecided']:
             broken.append("%s generated no obligations" % r['contract'])
+        natives = sorted(o['name'] for o in r['obligations'].values() if o.get('native'))
+        if natives and not is_bounded:
+            cc_ = (r.get('crosscheck') or {}).get('clauses', {})
+            bounded_list.append({'contract': r['contract'], 'bound': "clauses evaluated on native runs only (run-time contract check, %s sampled runs)"
+                                 % (max([cc_.get(n.rsplit('/', 1)[1], 0) for n in natives] + [0])), 'excluded_inputs': None, 'obligations': natives})
+        contract_bounded = is_bounded
         for o in r['obligations'].values():
+            is_bounded = contract_bounded or bool(o.get('native'))
             all_names.append(o['name'])
             for b, k in o['backends'].items():
                 backends[b] = backends.get(b, 0) + k
@@ -204,6 +211,15 @@ def summarize(prop, tier, seed, meta, results, wall, quiet=False, census=True):
                 if hit:
                     if (hit[0], oname) not in known_hits:
                         known_hits.append((hit[0], oname))
+                        # an open known finding is not part of the proved / bounded-ok set
+                        ob_ = next((o for o in r['obligations'].values() if o['name'] == oname and o['status'] == 'discharged'), None)
+                        if ob_ is not None:
+                            if bool(r.get('bounded')) or ob_.get('native'):
+                                n_bounded -= 1
+                                n_bounded_ok -= 1
+                            else:
+                                n_obl -= 1
+                                n_dis -= 1
                     continue
                 if not any(v[0] == oname for v in violations):
                     violations.append((oname, rep, ''))
@@ -330,7 +346,7 @@ def main(argv=None):
             for o in r['obligations'].values():
                 if o['kind'] == 'canary' or o['status'] != 'discharged' or o['name'].endswith('/divisors-nonzero'):
                     continue
-                (bnd if r.get('bounded') else dis).append(o['name'])
+                (bnd if (r.get('bounded') or o.get('native')) else dis).append(o['name'])
         base[a.prop] = {'discharged': sorted(dis), 'bounded': sorted(bnd)}
         with open(bpath, 'w') as f:
             json.dump(base, f, indent=1, sort_keys=True)
